@@ -68,8 +68,15 @@ GenText(sd, t, j) == [i \in 1..Pick(sd, t, j, 4) |-> Elem(sd, t, j + i, LinePool
 (* command lists run by a global (C15): delete, substitute, put, text commands, relative addresses, nested global *)
 RelLoc(o) == <<[a |-> [b |-> "none", n |-> 0, m |-> 0, re |-> <<>>, offs |-> <<o>>], sep |-> ""]>>
 GlobCmd(ed, sd, t, j) ==
-    LET k == Pick(sd, t, j, 14) IN
-    IF k = 0 \/ k = 1 THEN [k |-> "d", loc |-> <<>>, reg |-> 0]
+    LET k == Pick(sd, t, j, 17)
+        num(n) == [a |-> [b |-> "num", n |-> n, m |-> 0, re |-> <<>>, offs |-> <<>>], sep |-> ""]
+    IN
+    (* deletions in front of the line being visited, also of lines before the range of the global *)
+    IF k = 14 THEN [k |-> "d", loc |-> <<[a |-> [b |-> "none", n |-> 0, m |-> 0, re |-> <<>>, offs |-> <<-1>>], sep |-> ","],
+                                          [a |-> [b |-> "dot", n |-> 0, m |-> 0, re |-> <<>>, offs |-> <<>>], sep |-> ""]>>, reg |-> 0]
+    ELSE IF k = 15 THEN [k |-> "d", loc |-> <<num(1)>>, reg |-> 0]
+    ELSE IF k = 16 THEN [k |-> "d", loc |-> <<[num(1) EXCEPT !.sep = ","], num(2)>>, reg |-> 0]
+    ELSE IF k = 0 \/ k = 1 THEN [k |-> "d", loc |-> <<>>, reg |-> 0]
     ELSE IF k = 2 \/ k = 3 THEN [k |-> "s", loc |-> <<>>, re |-> Elem(sd, t, j + 1, PatPool), rep |-> Elem(sd, t, j + 2, RepPool),
                                  g |-> Pick(sd, t, j + 3, 2) = 0]
     ELSE IF k = 4 THEN [k |-> "pu", loc |-> <<>>, reg |-> Elem(sd, t, j + 1, RegPool)]
